@@ -184,6 +184,10 @@ def run(chk):
         prec = ref[-1].prec
         chk.case((text, f["ranges"][:200]), nontrivial=len(impl["txns"]) > 0)
         chk.traces += 1
+        # a transaction is dated by the date WRITTEN in its header (not by its effective date): taken from the parsed tree
+        written = [(int(e[1][1]), int(e[1][2]), int(e[1][3])) for e in tree if e[0] == "txn"]
+        if len(written) == len(impl["txns"]):
+            impl = dict(impl, txns=[dict(t, date=d) for t, d in zip(impl["txns"], written)])
         msgs = oracle_ranges(impl, ranges_sx, reg_sx, prec)
         # additivity on exact sums (no declared precision involved)
         if msgs:
